@@ -373,9 +373,12 @@ def sanitizer_violation(fold, prop, mon_name, rc, out, cmd):
     elif 'runtime error:' in out:
         m = re.search(r'runtime error: ([^\n]{0,60})', out)
         kind = 'ubsan-' + re.sub(r'[^A-Za-z0-9]+', '-', m.group(1))[:40] if m else 'ubsan'
+    elif rc == 99 and '== ' in out and ('Invalid read' in out or 'Invalid write' in out or 'uninitialised' in out or 'definitely lost' in out):
+        m = re.search(r'==\d+== (Invalid (?:read|write) of size \d+|Conditional jump or move depends on uninitialised value|Use of uninitialised value[^\n]*)', out)
+        kind = 'memcheck-' + re.sub(r'[^A-Za-z0-9]+', '-', m.group(1))[:50] if m else 'memcheck'
     elif 'Assertion' in out and 'failed' in out: kind = 'assert-failed'
     elif 'terminate called' in out: kind = 'terminate'
-    frames = re.findall(r'#\d+ 0x[0-9a-f]+ in ([^\n]+?) (?:\(|/)', out)
+    frames = re.findall(r'#\d+ 0x[0-9a-f]+ in ([^\n]+?) (?:\(|/)', out) + re.findall(r'(?:at|by) 0x[0-9A-F]+: ([^\n]+?) \(', out)
     where = ''
     for fr in frames:
         if 'manif::' in fr:
@@ -395,10 +398,10 @@ def run_sharded(prop, tier, seed, jobs, timeout):
     def one(ij):
         i, j = ij
         log = os.path.join(rundir, '%04d.jsonl' % i)
-        cmd = [j['bin'].path, '--seed', str(j['seed']), '--n', str(j['n']), '--out', log] + j.get('args', [])
-        rc, out, to = run_proc(cmd, log, timeout)
+        cmd = j.get('wrap', []) + [j['bin'].path, '--seed', str(j['seed']), '--n', str(j['n']), '--out', log] + j.get('args', [])
+        rc, out, to = run_proc(cmd, log, timeout, env=j.get('env'))
         if to:  # inconclusive unless it happens twice
-            rc, out, to = run_proc(cmd, log, timeout)
+            rc, out, to = run_proc(cmd, log, timeout, env=j.get('env'))
         return i, j, cmd, log, rc, out, to
 
     with ThreadPoolExecutor(NCPU) as ex:
